@@ -26,6 +26,9 @@ def chunks(rng, total, maxchunk):
 
 def random_scenario(rng, i, maxbytes=4000, faults=True, bidir=None, iss=None):
     mtu = rng.choice([1500, 1500, 576, 200, 100, 68])
+    # a transfer is at most ~250 segments long: the trace validator's bookkeeping is quadratic in the number of segments
+    # of one connection, and a 32 KB transfer over a 68-byte MTU (2000 segments) adds nothing a 4 KB one does not have
+    maxbytes = min(maxbytes, 250 * max(mtu - 52, 8))
     tot_a = rng.choice([1, 10, 100, 1000, maxbytes // 2, maxbytes])
     bid = rng.random() < 0.5 if bidir is None else bidir
     tot_b = rng.choice([1, 50, 500, maxbytes // 2]) if bid else 0
@@ -37,6 +40,16 @@ def random_scenario(rng, i, maxbytes=4000, faults=True, bidir=None, iss=None):
         sc['mtu'] = 1280
     if rng.random() < 0.3:
         sc['b']['rcvbuf'] = rng.choice([1, 100, 500, 2000, 4096])
+        if sc['b']['rcvbuf'] <= 100:
+            # a tiny receive buffer means a segment per few bytes: keep those transfers short
+            cap = 300 if sc['b']['rcvbuf'] == 1 else 2000
+            w, acc = [], 0
+            for x in sc['a']['writes']:
+                x = min(x, cap - acc)
+                if x > 0:
+                    w.append(x)
+                    acc += x
+            sc['a']['writes'] = w or [min(cap, 100)]
     if rng.random() < 0.2:
         sc['a']['sndbuf'] = rng.choice([100, 1000, 4096])
     if faults:
